@@ -136,6 +136,38 @@ Definition range_read (v : variant) (st : pstate) (o1 o2 : option Z) : list ev *
   let '(evs, q') := read_chunks v ci' t1 t2 ci' (p_chunks st) (p_queue st) in
   (evs, mkp (p_chunks st) ci' q').
 
+(* ---- a forward range read that starts from a SAVED POSITION (chunk id, record index): a query continued from
+   NextQueryRequest.Pos (cursor.applyStatePos -> JIterator.SetPos -> chkSelector.getPosForward). The selector takes
+   the first chunk whose id is not smaller than the position's; the record index counts only if that chunk IS the
+   position's chunk - when the chunk was removed meanwhile (TRUNCATE) the position denotes the first record of the
+   next existing chunk. `carry` = true describes a selector that takes the index over into that next chunk (refuted in
+   props/C02.v); the code is carry = false. The windows are computed for every chunk of the journal (a fresh
+   selector's rebuildChunkStatuses), so the effect on the index state is that of range_read. ---- *)
+Definition jit_chunk_from (st : chk_status) (data : list Z) (idx : Z) : list (Z * Z) :=
+  let '(np, ok) := check_pos_or_advance st idx in
+  if ok then filter (fun pt => (np <=? fst pt) && (fst pt <=? s_max st)) (number_from 0 data) else [].
+Fixpoint read_chunks_from (carry : bool) (v : variant) (ci : cindex) (t1 t2 : Z) (pc pi : Z) (started : bool)
+  (infos : cindex) (cks : list (Z * list Z)) (q : list Z) : list ev * list Z :=
+  match infos, cks with
+  | k :: itl, (cid, data) :: ctl =>
+      let '(st, rb) := update_poss v ci t1 t2 (k_id k) (k_rmin k) (k_rmax k) (Z.of_nat (length data)) in
+      let q' := if rb then enqueue q cid else q in
+      if negb started && (cid <? pc) then read_chunks_from carry v ci t1 t2 pc pi false itl ctl q'
+      else
+        let idx := if started then 0 else if carry || (cid =? pc) then pi else 0 in
+        let '(evs, q'') := read_chunks_from carry v ci t1 t2 pc pi true itl ctl q' in
+        (tag_chunk cid (filter (fun pt => fit_in_range t1 t2 (snd pt)) (jit_chunk_from st data idx)) ++ evs, q'')
+  | _, _ => ([], q)
+  end.
+Definition range_read_from (carry : bool) (v : variant) (st : pstate) (pc pi : Z) (o1 o2 : option Z) : list ev * pstate :=
+  let t1 := eff_t1 v o1 in
+  let t2 := eff_t2 o2 in
+  let ci' := ci_sync (p_ci st) (p_chunks st) in
+  let '(evs, q') := read_chunks_from carry v ci' t1 t2 pc pi false ci' (p_chunks st) (p_queue st) in
+  (evs, mkp (p_chunks st) ci' q').
+(* TRUNCATE removes the k oldest chunks of the journal; the index learns about it at the next SyncChunks *)
+Definition truncate (k : nat) (st : pstate) : pstate := mkp (skipn k (p_chunks st)) (p_ci st) (p_queue st).
+
 (* the unbounded read of the same partition, and the property's filter *)
 Definition read_all (st : pstate) : list ev :=
   flat_map (fun ck => tag_chunk (fst ck) (number_from 0 (snd ck))) (p_chunks st).
